@@ -1,7 +1,9 @@
 """C08 - type-class dispatch returns exactly what the type declares.
 
 Three parts (DESIGN.md, section C08):
-  * static matrix (extra_phase, exhaustive): 71 built-in type objects x 30 classes x 8 entry points
+  * static matrix (extra_phase, exhaustive): 71 built-in type objects + 5 static types / classes the executor
+    declares itself with the Cello / CelloEmpty / Instance macros (user classes, no instances, all-empty instance,
+    29 classes in reverse order) x 30 classes x 8 entry points
     (instance, type_instance, implements, type_implements, method_at_offset, type_method_at_offset,
     implements_method_at_offset, type_implements_method_at_offset; the member entry points for every
     member of the class) x 3 lookup orders (cold, warm, others-first).  Oracle: scan of the raw type
@@ -27,7 +29,8 @@ ID = "C08"
 LEVEL = "exploration"
 BUDGET = {"quick": 1060, "thorough": 159000}     # ~1/18 of the generated cases are thread cases
 WORKERS = {"quick": 4, "thorough": 16}
-RULE = ("static part (exhaustive, enumerated): case = (built-in type object, order in cold|warm|others-first); all 30 "
+RULE = ("static part (exhaustive, enumerated): case = (static type object: 71 built-in ones + 5 declared by the executor with the "
+        "Cello/CelloEmpty/Instance macros, order in cold|warm|others-first); all 30 "
         "classes x 8 entry points x every member are looked up and compared with a by-name scan of the raw type record; "
         "cold/others-first make every single lookup the first Cello call of a forked process (others-first: after "
         "looking up the 29 other classes). generated part: case = run-time type (name, size, 0..256 instances = "
@@ -35,11 +38,23 @@ RULE = ("static part (exhaustive, enumerated): case = (built-in type object, ord
         "filler classes) + generated sequence of lookups/calls/casts with repeats, optionally interleaved with 1..2 in-place "
         "re-declarations of the same type object (classes dropped / replaced by new instance objects / reordered / added) "
         "followed by lookups biased to the classes that changed, or (without re-declaration) the same with 2..16 threads; lookups through a built-in type OBJECT as receiver (instance / implements / method lookups / type_of on Int, File, ... themselves, usually the first access to that object in the process). "
+        "Ops besides the plain lookups: api = public function without a default (len, push, ...: declared member called exactly once, else ClassError and "
+        "nothing called); fb = public function WITH a default (cmp, hash, assign, swap, copy, show_to, name, construct_with, destruct, alloc_raw, "
+        "dealloc_raw, mark): declared member -> exactly that function of the current declaration runs once; member not declared -> the default "
+        "runs and no function of any (earlier) declaration does (executed only where the default is harmless for the 256-byte test object, else "
+        "counted as fb:not-executed); cast with a type object (the run-time type itself, a static one) as receiver: only Type is accepted; aq = "
+        "lookup with an ALIAS of the class (another class object of the same name; answer only required to be admissible: the declared instance "
+        "or none) followed by lookups with the real class, which must be exact. Thread cases run lookups, api, fb and type-object receivers. "
+        "Every generated case runs under a generated build: clang ASan | gcc -O0 | gcc -O0 -DCELLO_CACHE=0 | gcc -O3. "
         "non-trivial = static case whose 18 cached classes are looked up for the first time in the process "
         "(cold, others-first), or run-time type with >= 20 instances, or a thread case (concurrent cold lookup). "
         "distinct = distinct case JSON.")
 ASSUMPTIONS = ["class identity is by name (Type_New records c_str(type_of(instance))): generated class names are unique "
                "and never equal to a built-in class name; a type declaring the same class twice is not generated",
+               "two class objects of the same name are the same class for a lookup or not - the statement does not say; a lookup with the "
+               "alias may answer with the declared instance or with none, never with anything else, and must not disturb later lookups",
+               "defaults of cmp/hash/assign/swap work on size(type) bytes: only run when 1 <= size <= 256 and Size is not overridden; the "
+               "defaults of copy/show_to/alloc_raw/dealloc_raw (allocate, print an address, reject a non-heap object) are not run",
                "a run-time type that declares Cast with a non-NULL member overrides cast(): the override must then be "
                "invoked exactly once (checked) instead of the default ValueError rule",
                "concurrent first lookups write identical values unsynchronised; only wrong answers are reported, "
@@ -61,7 +76,9 @@ PLAIN_TYPES = ["Type", "Tuple", "Ref", "Box", "Int", "Float", "String", "Tree", 
 EXC_TYPES = ["IOError", "KeyError", "BusyError", "TypeError", "ValueError", "ClassError", "FormatError",
              "ResourceError", "OutOfMemoryError", "IndexOutOfBoundsError", "SegmentationError", "ProgramAbortedError",
              "DivisionByZeroError", "IllegalInstructionError", "ProgramInterruptedError", "ProgramTerminationError"]
-TYPES = PLAIN_TYPES + CN + EXC_TYPES
+# static types and classes declared by the executor itself with the Cello / CelloEmpty / Instance macros (ex_type.c)
+USER_TYPES = ["UCls", "UCl", "UT0", "UT1", "UTAll"]
+TYPES = PLAIN_TYPES + CN + EXC_TYPES + USER_TYPES
 TYPES_NT = [t for t in TYPES if t != "Terminal"]      # see KNOWN: Terminal cannot appear in an exception message
 ORDERS = ["cold", "warm", "others-first"]
 ENTRY_CLASS = "ITPQ"       # per class
@@ -82,11 +99,25 @@ TRICKY = ["Cm", "Cmpx", "cmp", "CMP", "Len_", "_Len", "C_", "C_Str2", "C_In", "I
 RT_NAMES = ["T", "Foo", "Int", "Cmp", "Type", "String", "Tuple", "Ref", "X_1", "Zed9", "Exception", "ValueError",
             "Len", "Thing", "a", "__Name"]
 _BUILTIN = set(TYPES)
-assert not (_BUILTIN & set(TRICKY)) and len(TYPES) == 71 and len(set(TYPES)) == 71
+assert not (_BUILTIN & set(TRICKY)) and len(TYPES) == 76 and len(set(TYPES)) == 76
+# public functions that dispatch to a member but fall back to a DEFAULT when the type leaves the member out
+FB = {"Cmp": [0], "Hash": [0], "Assign": [0], "Swap": [0], "Copy": [0], "Show": [0], "Doc": [0], "New": [0, 1],
+      "Alloc": [0, 1], "Mark": [0]}
+FB_CLASSES = sorted(FB)
+FB_NAME = {("Cmp", 0): "cmp", ("Hash", 0): "hash", ("Assign", 0): "assign", ("Swap", 0): "swap", ("Copy", 0): "copy",
+           ("Show", 0): "show_to", ("Doc", 0): "name", ("New", 0): "construct_with", ("New", 1): "destruct",
+           ("Alloc", 0): "alloc_raw", ("Alloc", 1): "dealloc_raw", ("Mark", 0): "mark"}
+# the member is not declared: 2 = the default touches size(type) bytes of the (256-byte) object, 1 = always harmless,
+# 0 = the default allocates / prints an address / rejects the non-heap object: not executed
+FB_DEFAULT = {("Cmp", 0): 2, ("Hash", 0): 2, ("Assign", 0): 2, ("Swap", 0): 2, ("New", 0): 1, ("New", 1): 1,
+              ("Mark", 0): 1, ("Doc", 0): 1}
+CFGS = {"asan": "ex_type", "plain": "ex_type_plain", "nocache": "ex_type_nocache", "O3": "ex_type_O3"}
 
 
 def prepare(tier):
-    return {"ex_type": build.executor("asan", "ex_type"), "ex_type_plain": build.executor("plain", "ex_type")}
+    with cf.ThreadPoolExecutor(4) as ex:
+        paths = list(ex.map(lambda c: build.executor(c, "ex_type"), list(CFGS)))
+    return {CFGS[c]: p for c, p in zip(CFGS, paths)}
 
 
 # ---- generators -----------------------------------------------------------------------------------------
@@ -173,14 +204,29 @@ def _op(draw, t, threads):
         c, n = _class_target(draw, t)
         return ["q", draw(st.sampled_from("ITPQMNRS")), c, draw(st.integers(0, n - 1))]
     if k <= 13:
-        if threads:
+        if threads and draw(st.booleans()):
             c, n = _class_target(draw, t)
             return ["q", draw(st.sampled_from("MN")), c, draw(st.integers(0, n - 1))]
+        if draw(st.integers(0, 2)) == 0:
+            # public function with a default: dispatch to the declared member, or the default and nothing else
+            declared = [c for c, _ in t["inst"] if c in FB]
+            c = draw(st.sampled_from(declared)) if declared and draw(st.booleans()) else draw(st.sampled_from(FB_CLASSES))
+            m = draw(st.sampled_from(FB[c]))
+            if threads and c in ("Assign", "Swap") and not (dict((x[0], x[1]) for x in t["inst"]).get(c, 0) >> m) & 1:
+                c, m = "Cmp", 0                       # their default writes to the shared object
+            return ["fb", c, m]
         declared = [c for c, _ in t["inst"] if c in API]
         c = draw(st.sampled_from(declared)) if declared and draw(st.booleans()) else draw(st.sampled_from(API_CLASSES))
         return ["api", c, draw(st.sampled_from(API[c]))]
     if k <= 15:
-        if draw(st.booleans()):
+        how = draw(st.integers(0, 5))
+        if how == 0:
+            # a type OBJECT as the receiver of cast: its type is Type (the run-time type object, or a static one,
+            # usually not looked at before)
+            obj = "rt" if draw(st.booleans()) else "o:" + draw(st.sampled_from(TYPES_NT))
+            tg = ["Type", "Type", "self", "twin", draw(st.sampled_from(TYPES_NT))] + ([obj[2:]] if obj != "rt" else [])
+            return ["cast", obj, draw(st.sampled_from(tg))]
+        if how <= 2:
             tg = ["self", "self", "twin", "Type", draw(st.sampled_from(TYPES_NT))]
             if t["name"] in _BUILTIN and t["name"] != "Terminal":
                 tg += [t["name"], t["name"]]
@@ -191,7 +237,10 @@ def _op(draw, t, threads):
         return ["cast", "s:" + s, draw(st.sampled_from([s, s, "self", "twin", draw(st.sampled_from(TYPES_NT))]))]
     if k <= 18:
         c, n = _class_target(draw, t, allow_static_as_class=False)
-        if not threads and draw(st.integers(0, 2)) == 0:
+        if not threads and draw(st.integers(0, 5)) == 0:
+            # an ALIAS of the class (another class object of the same name) as the class argument
+            return ["aq", draw(st.sampled_from("ITPQMNRS")), c, draw(st.integers(0, n - 1))]
+        if draw(st.integers(0, 2)) == 0:
             # the built-in type OBJECT itself as the receiver (its type is Type), typically the first access to it
             return ["oq", draw(st.sampled_from("IPMRO")), draw(st.sampled_from(TYPES_NT)), c, draw(st.integers(0, n - 1))]
         return ["sq", draw(st.sampled_from("ITPQMNRS")), draw(st.sampled_from(TYPES_NT)), c, draw(st.integers(0, n - 1))]
@@ -263,9 +312,17 @@ def _rt_case(draw, threads=False):
             prev = sorted(set((cur.get("prev") or []) + [x[0] for x in cur["inst"]]))
             cur = {"name": rd[1], "size": rd[2], "fdefs": t["fdefs"], "inst": rd[3], "prev": prev}
             ops += [_op(draw, cur, False) for _ in range(draw(st.integers(1, 30)))]
+    # every alias lookup is followed (not necessarily at once) by lookups of the same class with the real class object
+    out = []
+    for op in ops:
+        out.append(op)
+        if op[0] == "aq":
+            out.append(["q", draw(st.sampled_from("ITMNIT")), op[2], op[3]])
+    ops = out
     case = {"kind": "threads" if threads else "rt"}
     case.update(t)
     case["ops"] = ops
+    case["cfg"] = draw(st.sampled_from(["asan", "asan", "plain", "nocache", "O3"]))
     if threads:
         case["n"] = draw(st.one_of(st.integers(2, 16), st.sampled_from([2, 8, 16])))
         case["rot"] = draw(st.integers(0, 7))
@@ -311,12 +368,36 @@ def _expect(state, decl, op):
         _, c, m = op
         idx, mask = decl.get(c, (None, 0))
         return "k" if idx is not None and (mask >> m) & 1 else "C"
+    if kind == "fb":
+        _, c, m = op
+        idx, mask = decl.get(c, (None, 0))
+        if idx is not None and (mask >> m) & 1:
+            return "k"
+        mode = FB_DEFAULT.get((c, m), 0)
+        size_ok = 1 <= case["size"] <= 256 and not ("Size" in decl and decl["Size"][1] & 1)
+        return "skip" if mode == 0 or (mode == 2 and not size_ok) else "f"
+    if kind == "aq":
+        _, e, c, m = op
+        idx, mask = decl.get(c, (None, 0))
+        has = idx is not None
+        mem = has and bool((mask >> m) & 1)
+        if e in "IT":
+            ok = ["n"] + (["#%d" % idx] if has else [])
+        elif e in "PQ":
+            ok = ["0"] + (["1"] if has else [])
+        elif e in "MN":
+            ok = ["C"] + (["#%d" % idx] if mem else [])
+        else:
+            ok = ["0"] + (["1"] if mem else [])
+        return lambda tok: tok if tok in ok else "one of " + "/".join(ok)
     if kind == "cast":
         _, obj, tgt = op
         if obj == "x":
             if "Cast" in decl and decl["Cast"][1] & 1:
                 return "k"
             return "s" if tgt == "self" else "V"
+        if obj == "rt" or obj.startswith("o:"):
+            return "s" if tgt == "Type" else "V"          # a type object is an object of type Type
         return "s" if tgt == obj[2:] else "V"
     if kind == "tname":
         return "name=" + case["name"]
@@ -359,10 +440,17 @@ def _describe(case, op):
         return "%s(%s, %s, member %d)" % (ENTRY_NAME[op[1]], op[2], op[3], op[4])
     if op[0] == "oq":
         return "%s(<the type object %s itself>, %s, member %d)" % ("type_of" if op[1] == "O" else ENTRY_NAME[op[1]], op[2], op[3], op[4])
+    if op[0] == "fb":
+        return "%s() on an object of run-time type %s (%s member %d, which has a default)" % (FB_NAME[(op[1], op[2])], case["name"], op[1], op[2])
+    if op[0] == "aq":
+        return "%s(<run-time type %s, %d instances>, <another class object named %s>, member %d)" % (ENTRY_NAME[op[1]], case["name"], len(case["inst"]), op[2], op[3])
     if op[0] == "api":
         return "public call dispatching to %s member %d on an object of run-time type %s" % (op[1], op[2], case["name"])
     if op[0] == "cast":
-        return "cast(%s, %s)" % ("object of run-time type" if op[1] == "x" else "object of " + op[1][2:], op[2])
+        what = {"x": "object of run-time type", "rt": "<the run-time type object itself>"}.get(op[1])
+        if what is None:
+            what = ("object of " if op[1][0] == "s" else "<the type object itself> ") + op[1][2:]
+        return "cast(%s, %s)" % (what, op[2])
     return op[0]
 
 
@@ -408,15 +496,25 @@ def _died(ex, obs):
     return None
 
 
+_FBEV = {"k": "fb:declared-member-called", "f": "fb:default-taken", "skip": "fb:not-executed"}
+
+
 def _run_rt(ctx, case):
-    ex = ctx.executor("ex_type")
+    cfg = case.get("cfg", "asan")
+    if cfg not in CFGS:
+        raise HarnessBug("configuration " + repr(cfg))
+    ex = ctx.executor(CFGS[cfg])
     decl = _decl(case)
     lines, nsetup = encode(case)
     obs = ex.run("\n".join(lines))
     _infra(ex, obs)
     n = len(case["inst"])
     thr = case["kind"] == "threads"
-    ev = [case["kind"], "inst:%s" % ("0" if n == 0 else "1-19" if n < 20 else "20-199" if n < 200 else "200-256")]
+    ev = [case["kind"], "inst:%s" % ("0" if n == 0 else "1-19" if n < 20 else "20-199" if n < 200 else "200-256"), "cfg:" + cfg]
+    kinds = {op[0] for op in case["ops"]}
+    ev += ["op:" + k for k in sorted(kinds & {"fb", "aq", "api", "oq"})]
+    if any(op[0] == "cast" and (op[1] == "rt" or op[1].startswith("o:")) for op in case["ops"]):
+        ev.append("op:cast-of-a-type-object")
     nre = sum(1 for op in case["ops"] if op[0] == "redeclare")
     if nre:
         if thr:
@@ -450,6 +548,8 @@ def _run_rt(ctx, case):
             want = _expect(state, decl, op)
             if callable(want):
                 want = want(got)
+            if op[0] == "fb" and got in _FBEV and _FBEV[got] not in ev:
+                ev.append(_FBEV[got])
             if op[0] == "oq" and got.endswith(",v=1"):
                 if "first-touch-of-a-type-object" not in ev:
                     ev.append("first-touch-of-a-type-object")
@@ -570,6 +670,7 @@ def SAMPLE(case):
     s = {"kind": case["kind"], "name": case["name"], "size": case["size"], "instances": len(case["inst"]),
          "inst_head": case["inst"][:5], "inst_tail": case["inst"][-2:], "nops": len(case["ops"]), "ops_head": short[:8],
          "redeclare": [x for x in short if x[0] == "redeclare"][:2]}
+    s["cfg"] = case.get("cfg", "asan")
     if case["kind"] == "threads":
         s["n"] = case["n"]
         s["rot"] = case["rot"]
@@ -585,7 +686,10 @@ def _boundary_cases():
     for c in CN:
         probes += [["q", e, c, 0] for e in "ITPQ"] + [["q", e, c, m] for e in "MNRS" for m in range(NMEM[c])]
     tail = [["cast", "x", "self"], ["cast", "x", "twin"], ["cast", "x", "Int"], ["cast", "s:Int", "Int"],
-            ["cast", "s:Int", "self"], ["tname"], ["tsize"]]
+            ["cast", "s:Int", "self"], ["cast", "rt", "Type"], ["cast", "rt", "self"], ["cast", "o:File", "Type"],
+            ["cast", "o:File", "File"], ["cast", "o:UT1", "Type"], ["cast", "s:UT1", "UT1"], ["cast", "s:UT1", "UT0"],
+            ["tname"], ["tsize"]]
+    fbs = [["fb", c, m] for c in FB_CLASSES for m in FB[c]]
     for n in (0, 1, 2, 19, 20, 255, 256):
         for cls in ("Size", "Cmp", "Pointer", "Show", "Doc", "Mark"):
             for where in ("first", "last"):
@@ -604,7 +708,8 @@ def _boundary_cases():
                 if inst:
                     ops += [["q", "I", inst[-1][0], 0], ["q", "T", inst[0][0], 0]]
                 ops = ops + probes[:40] + tail
-                ops += [["api", c, m] for c in API_CLASSES for m in API[c]]
+                ops += [["api", c, m] for c in API_CLASSES for m in API[c]] + fbs
+                ops += [x for c in ("Cmp", "Size", "Doc") for x in (["aq", "I", c, 0], ["q", "I", c, 0], ["aq", "M", c, 0], ["q", "M", c, 0])]
                 out.append({"kind": "rt", "name": "B%d" % n, "size": 16, "fdefs": fd, "inst": inst, "ops": ops})
     # all 30 classes declared, together with 226 fillers, in both orders; also from 16 threads
     for rev in (False, True):
@@ -617,6 +722,7 @@ def _boundary_cases():
         inst = (bl + inst) if rev else (inst + bl)
         out.append({"kind": "rt", "name": "Full", "size": 8, "fdefs": fd, "inst": inst, "ops": probes + probes[::-1] + tail})
         tops = [p for p in probes if p[1] in "ITMN"][::3] + [["sq", "I", t, c, 0] for t in ("Int", "Array", "Table") for c in CACHED]
+        tops = tops[:150] + [["api", c, API[c][0]] for c in API_CLASSES] + fbs + [["oq", "I", t, "Cmp", 0] for t in ("File", "UT1", "Mutex")]
         out.append({"kind": "threads", "name": "Full", "size": 8, "fdefs": fd, "inst": inst, "ops": tops[:200], "n": 16, "rot": 5})
     # in-place re-declaration of the same type object with warm caches: every class declared and looked up through
     # every entry point, then re-declared as (nothing | same classes, new instance objects | reversed, every other
@@ -631,9 +737,9 @@ def _boundary_cases():
             nme, nm, mask = _filler(i, 5)
             fd.append([nme, nm, "h"])
             finst.append([nme, mask])
-        ops = probes + apis
+        ops = probes + apis + fbs
         for k, new in enumerate(([], full, half, unc + finst[:50], finst + full, [])):
-            ops = ops + [["redeclare", "Re" if k % 2 else "Full", 8 + k, new]] + probes + apis + tail
+            ops = ops + [["redeclare", "Re" if k % 2 else "Full", 8 + k, new]] + probes + apis + fbs + tail
         out.append({"kind": "rt", "name": "Full", "size": 8, "fdefs": fd, "inst": full + finst, "ops": ops})
     out.append({"kind": "threads", "name": "Empty", "size": 0, "fdefs": [], "inst": [],
                 "ops": [["q", "I", c, 0] for c in CN] + [["q", "M", c, 0] for c in CN], "n": 16, "rot": 3})
